@@ -91,6 +91,11 @@ def main():
     limit = a.time_limit or getattr(mod, "TIME_LIMIT", TIME_LIMIT).get(tier, TIME_LIMIT[tier])
     agg = ex.explore(hpath, tier, len(cfgs), nworkers=a.workers, time_limit=limit,
                      validate_every=getattr(mod, "VALIDATE_EVERY", 25))
+    extra_ev = {}
+    if hasattr(mod, "post_hook"):
+        ph = mod.post_hook(tier) or {}
+        extra_ev = ph.get("evidence", {})
+        agg.violations.extend(ph.get("violations", []))
     wall = time.time() - t0
 
     # ---- classify -----------------------------------------------------------------------------
@@ -192,6 +197,7 @@ def main():
             "undecided_abstraction_models": undecided_spurious,
             "known_findings_hit": sorted(known_hits),
             "time_limit_hit": agg.incomplete,
+            "extra": extra_ev,
         },
         "assumptions": getattr(mod, "ASSUMPTIONS", []),
         "wall_s": round(wall, 2),
